@@ -1,8 +1,10 @@
 package props
 
 import (
+	"context"
 	"fmt"
 	"runtime"
+	"sync"
 	"time"
 
 	"verif/core"
@@ -72,6 +74,94 @@ func runC02(c *core.Ctx) {
 		}
 	}
 	runtime.GOMAXPROCS(runtime.NumCPU())
+	si := 0
+	for rep := 0; rep < c.Scale(6, 120); rep++ {
+		for _, q := range []int{1, 2, 3, 8} {
+			for _, e := range []int{wl.ECtxWrite1, wl.ECtxWritev} {
+				si++
+				if !c.Mine(si) {
+					continue
+				}
+				id := fmt.Sprintf("seam/q%d/%s/r%d", q, wl.EntryName[e], rep)
+				if c.CaseQuiet(id) {
+					c02Seam(c, id, q, e)
+				}
+			}
+		}
+	}
+}
+
+// seamCtx is a caller context whose Done() is evaluated by the library right before it commits to the
+// enqueue select: a seam "writer is about to enqueue" that exists in the unchanged code.
+type seamCtx struct {
+	context.Context
+	once sync.Once
+	fn   func()
+}
+
+func (s *seamCtx) Done() <-chan struct{} {
+	s.once.Do(s.fn)
+	return nil
+}
+
+// c02Seam: the queue is full behind a parked sender; while the last writer is about to enqueue, the sender
+// is released, drains and flushes everything and exits. The writer's enqueue then succeeds with no sender
+// running: it must start one.
+func c02Seam(c *core.Ctx, id string, q, entry int) {
+	plan := []mon.Step{{At: "tV0", Occ: 1, Kind: mon.Gate, Until: "go", UntilCount: 1, Timeout: 3 * time.Second}}
+	rig := mon.NewRig(mon.RigOpts{Mode: mon.Blocking, Queue: q, Plan: plan, QuietTail: true})
+	defer rig.Dispose()
+	rng := c.Rand("seam", id)
+	write := func(ctx context.Context, seq, e int) error {
+		_, err := wl.DoWrite(rig.Ch, ctx, e, mon.Payload(1, seq, 32), rng)
+		return err
+	}
+	if err := write(context.Background(), 0, wl.EWrite1); err != nil {
+		c.Inconclusive(id, "first write failed")
+		return
+	}
+	if !rig.S.Await("tV0", 1, 3*time.Second) {
+		c.Inconclusive(id, "sender did not reach its first Writev")
+		return
+	}
+	for k := 1; k <= q; k++ {
+		if err := write(context.Background(), k, wl.EWrite1); err != nil {
+			c.Inconclusive(id, "filling write failed")
+			return
+		}
+	}
+	exited := false
+	sc := &seamCtx{Context: context.Background()}
+	sc.fn = func() {
+		rig.S.Mark("go")
+		// wait until the sender has written, flushed, released and exited
+		exited = rig.Ex.WaitOutstanding(1, 500*time.Millisecond)
+	}
+	if err := write(sc, q+1, entry); err != nil {
+		c.Inconclusive(id, "the decisive write was refused: "+err.Error())
+		return
+	}
+	rig.S.Mark("go")
+	if !rig.Ex.WaitOutstanding(1, 8*time.Second) {
+		c.Inconclusive(id, "watchdog")
+		return
+	}
+	c.Count("seam_trials", 1)
+	if exited {
+		c.Count("seam_trials_sender_exited_before_enqueue", 1)
+		c.Count("window_hits", 1)
+		c.Sig("seam", q, entry)
+	}
+	ops, wire := rig.T.Snapshot()
+	recs, _ := mon.ParseWire(wire)
+	c.Count("accepted_payloads", int64(q+2))
+	c.Count("payloads_on_wire", int64(len(recs)))
+	if len(recs) != q+2 {
+		c.Violation("C02:accepted-payload-stranded", id, fmt.Sprintf("queue size %d: the last writer enqueued right after the sender had drained, flushed and exited; %d of %d accepted payloads were handed to the transport and no sender action is outstanding: the rest is parked in the queue; entry=%s ops=%s",
+			q, len(recs), q+2, wl.EntryName[entry], mon.OpString(ops)), map[string]interface{}{"marks": rig.S.LogString(60)})
+	} else if rig.T.Unflushed() != 0 {
+		c.Violation("C02:written-but-not-flushed", id, "after the seam script bytes were written but never flushed", nil)
+	}
 }
 
 func judgeC02(c *core.Ctx, id string, h *wl.History) {
